@@ -279,8 +279,10 @@ def monitor_attempt_loop(chk, tier):
             # response time metric for this attempt
             rts = [x for x in between if x.kind == 'env' and x.name.endswith('report_metrics') and decode_metric(ex, st, x)[0] == 'UpdateCheckResponseTime']
             nows = [x for x in evs[:nxt_i] if x.kind == 'env' and x.name.endswith('now_in_monotonic')]
-            if len(rts) > 1:
-                Ds['attempt-metrics'].failed = Ds['attempt-metrics'].failed or ('violated', 'several response-time metrics for one attempt', None, st)
+            if len(rts) != 1:
+                # the monotonic clock does not run backwards within a check (assumed in this exploration; the wall
+                # clock is free), so the duration of every attempt is computable and is reported exactly once
+                Ds['attempt-metrics'].failed = Ds['attempt-metrics'].failed or ('violated', '%d response-time metrics for attempt %d (the wall clock may jump, the monotonic clock does not): %s' % (len(rts), k + 1, story(ex, st)), None, st)
             if rts:
                 mv = decode_metric(ex, st, rts[0])[1]
                 succ = payload(ex, st, mv, 0, 1, 'bool')
